@@ -10,6 +10,7 @@ MODULES = {
     "C08": "harness.c08_bellman",
     "C06": "harness.c06_hpmut",
     "C05": "harness.c05_tournament",
+    "C04": "harness.c04_preserve",
 }
 
 TECH = "symbolic execution of the real Python functions on z3-backed proxies (re-execution path exploration); each obligation decided per path by z3 as pc ∧ assumptions ∧ ¬obligation; sat models replayed on the real code"
@@ -34,6 +35,11 @@ CLAIMED = {
     "C18": {
         "level_text": "bounded symbolic verification of the real RainbowDQN._dqn_loss and learn on a real agent with stub networks: for all rewards (inside, outside and exactly on atoms), done flags, gamma in [0,1], actions taken, online q-values (ties included), target probabilities >= 0 and online log-probabilities at atoms<=5(9), batch<=2, actions<=2(3), symmetric and asymmetric supports with exactly representable delta_z: the projection recovered from the returned loss has the mass of the target distribution of a greedy next action and the mean of its clipped Bellman image, is non-negative, the per-sample loss is the cross-entropy with the online log-distribution of the action taken; learn() combines 1-step and n-step (gamma^n) losses, returns loss+prior_eps as priorities, passes indices through and steps optimiser and soft update once",
         "level_note": NOTE + "; support grids are chosen with exactly representable delta_z (float rounding of b=(Tz-v_min)/delta_z is outside the claim)",
+        "technique": TECH,
+    },
+    "C04": {
+        "level_text": "bounded symbolic verification of the real EvolvableModule.preserve_parameters and EvolvableCNN.shrink_preserve_parameters (the functions every recreate_network() hands its (old,new) pair to): for ALL parameter contents and every pair of old/new shapes with rank<=4(5) and extents in {1,2,3}(4) per axis (all pairs at rank<=3, an evenly spaced subset above): the new parameter equals the old one on the common index range (leading [:min0,:min1] block with spatial axes intact for the CNN variant), keeps its fresh value elsewhere, equal shapes give identical parameters, parameters only in the new net and the old net are untouched, names and the returned object are the new network's",
+        "level_note": NOTE + "; that each recreate_network() passes the right (old,new) pair, and clone()(x)==self(x), need real layer construction / forward passes and are outside the claim",
         "technique": TECH,
     },
     "C05": {
@@ -67,4 +73,4 @@ NOT_APPLICABLE = {
 
 # designed in DESIGN.md §5 but the check is not built/registered yet (moves to CLAIMED when it lands)
 PENDING = {pid: "solver-based check designed (DESIGN.md §5) but not yet built in this tree; not claimed until it is"
-           for pid in ["C03", "C04", "C12", "C13", "C14", "C15", "C16", "C19"]}
+           for pid in ["C03", "C12", "C13", "C14", "C15", "C16", "C19"]}
